@@ -59,6 +59,18 @@ impl Walker {
         self.payload += need;
         true
     }
+    /// a string: a collection of bytes that must also be valid UTF-8 (checked on the raw bytes; a `str` that is not
+    /// valid UTF-8 is an invalid value even if nothing has tripped over it yet)
+    pub fn string(&mut self, what: &str, bytes: &[u8]) -> bool {
+        if !self.collection(what, bytes.len(), 1) {
+            return false;
+        }
+        if std::str::from_utf8(bytes).is_err() {
+            self.problem(format!("invalid-utf8:{} of {} bytes", what, bytes.len()));
+            return false;
+        }
+        true
+    }
     /// after the walk: everything the value holds, taken together, must have fitted into the input
     pub fn check_total(&mut self) {
         if self.problems.is_empty() && self.payload > self.avail {
@@ -149,7 +161,7 @@ impl ZooVal for RecSmall {
     }
     fn walk(&self, w: &mut Walker) {
         w.prim(4);
-        if w.collection("String", self.s.len(), 1) {
+        if w.string("String", self.s.as_bytes()) {
             w.elements_touched += self.s.chars().count() as u64;
         }
         if w.collection("Vec<u16>", self.v.len(), 2) {
@@ -290,7 +302,7 @@ impl ZooVal for Prims {
         }
         w.prim(20);
         for s in &self.sarr {
-            w.collection("String", s.len(), 1);
+            w.string("String", s.as_bytes());
         }
         w.prim(1 + 2 + 8 + 16 + 4 + 1);
         let c = unsafe { *(&self.c as *const char as *const u32) };
@@ -333,7 +345,7 @@ fn walk_shape(s: &Shape, w: &mut Walker) {
         Shape::Unit => {}
         Shape::Tuple(_, st) => {
             w.prim(4);
-            w.collection("String", st.len(), 1);
+            w.string("String", st.as_bytes());
         }
         Shape::Struct { a, b } => {
             w.collection("Vec<u8>", a.len(), 1);
@@ -369,7 +381,7 @@ impl ZooVal for Shapes {
         match &self.res {
             Ok(_) => w.prim(4),
             Err(s) => {
-                w.collection("String", s.len(), 1);
+                w.string("String", s.as_bytes());
             }
         }
     }
@@ -400,7 +412,7 @@ impl ZooVal for Maps {
     fn walk(&self, w: &mut Walker) {
         if w.collection("BTreeMap", self.bt.len(), 16) {
             for (k, v) in &self.bt {
-                w.collection("String", k.len(), 1);
+                w.string("String", k.as_bytes());
                 w.collection("Vec<u8>", v.len(), 1);
             }
             w.elements_touched += self.bt.len() as u64;
@@ -408,7 +420,7 @@ impl ZooVal for Maps {
         if w.collection("IndexMap", self.im.len(), 12) {
             for (_k, v) in &self.im {
                 w.prim(4);
-                w.collection("String", v.len(), 1);
+                w.string("String", v.as_bytes());
             }
         }
     }
@@ -443,13 +455,13 @@ impl ZooVal for Shared {
         }
     }
     fn walk(&self, w: &mut Walker) {
-        w.collection("Arc<str>", self.a.len(), 1);
-        w.collection("Arc<str>", self.b.len(), 1);
+        w.string("Arc<str>", self.a.as_bytes());
+        w.string("Arc<str>", self.b.as_bytes());
         w.prim(4);
         w.collection("Vec<u8>", self.d.len(), 1);
         w.prim(1);
         if let Some(s) = &self.e {
-            w.collection("String", s.len(), 1);
+            w.string("String", s.as_bytes());
         }
     }
 }
@@ -548,7 +560,7 @@ impl ZooVal for Bits {
             std::hint::black_box(ones);
             w.elements_touched += self.bv.len() as u64;
         }
-        w.collection("String", self.name.len(), 1);
+        w.string("String", self.name.as_bytes());
         w.prim(4);
     }
 }
@@ -592,7 +604,7 @@ impl ZooVal for Smalls {
             w.problem(format!("oversized:ArrayVec<String,3> len {}", self.avs.len()));
         } else if w.collection("ArrayVec<String,3>", self.avs.len(), 8) {
             for s in &self.avs {
-                w.collection("String", s.len(), 1);
+                w.string("String", s.as_bytes());
             }
         }
         w.prim(1);
@@ -646,13 +658,13 @@ impl ZooVal for Strings {
     fn walk(&self, w: &mut Walker) {
         if w.collection("Vec<String>", self.v.len(), 8) {
             for s in &self.v {
-                w.collection("String", s.len(), 1);
+                w.string("String", s.as_bytes());
             }
             w.elements_touched += self.v.len() as u64;
         }
         w.prim(1);
         if let Some(s) = &self.o {
-            w.collection("String", s.len(), 1);
+            w.string("String", s.as_bytes());
         }
     }
 }
@@ -721,7 +733,7 @@ impl ZooVal for ArrLast {
     fn walk(&self, w: &mut Walker) {
         w.prim(1);
         for s in &self.names {
-            w.collection("String", s.len(), 1);
+            w.string("String", s.as_bytes());
         }
         if self.av.len() > 4 {
             w.problem(format!("oversized:ArrayVec<u8,4> len {}", self.av.len()));
@@ -800,7 +812,7 @@ impl ZooVal for Misc {
     }
     fn walk(&self, w: &mut Walker) {
         w.collection("PathBuf", self.path.as_os_str().len(), 1);
-        w.collection("Cow<str>", self.cow.len(), 1);
+        w.string("Cow<str>", self.cow.as_bytes());
         if w.collection("BTreeSet<String>", self.bset.len(), 8) {
             w.elements_touched += self.bset.iter().map(|s| s.len() as u64).sum::<u64>();
         }
@@ -822,7 +834,7 @@ impl ZooVal for Misc {
         w.prim(1 + 2 + 1 + 4 + 12);
         if w.collection("VecDeque<String>", self.last.len(), 8) {
             for s in &self.last {
-                w.collection("String", s.len(), 1);
+                w.string("String", s.as_bytes());
             }
         }
     }
@@ -873,7 +885,7 @@ impl ZooVal for Misc2 {
         }
         if w.collection("Box<[String]>", self.tail.len(), 8) {
             for s in self.tail.iter() {
-                w.collection("String", s.len(), 1);
+                w.string("String", s.as_bytes());
             }
         }
     }
@@ -908,7 +920,7 @@ impl ZooVal for Text {
     fn walk(&self, w: &mut Walker) {
         w.prim(4);
         w.collection("Vec<u8>", self.tags.len(), 1);
-        if w.collection("String", self.body.len(), 1) {
+        if w.string("String", self.body.as_bytes()) {
             w.elements_touched += self.body.len() as u64;
         }
     }
@@ -1429,7 +1441,7 @@ impl Subject for UpSubj {
     }
     fn walk(&self, v: &Val, w: &mut Walker) {
         let n = &v.downcast_ref::<UpVal>().expect("type").new;
-        if w.collection("String", n.a.len(), 1) {
+        if w.string("String", n.a.as_bytes()) {
             w.elements_touched += n.a.chars().count() as u64;
         }
         w.prim(8);
@@ -1442,7 +1454,7 @@ impl Subject for UpSubj {
             w.elements_touched += n.items.len() as u64;
         }
         if let UpNewKind::D(s) = &n.kind {
-            w.collection("String", s.len(), 1);
+            w.string("String", s.as_bytes());
         }
         if w.collection("Vec<u32>", n.tail.len(), 4) {
             let mut acc = 0u64;
@@ -1520,7 +1532,7 @@ impl ZooVal for VerRec {
         }
     }
     fn walk(&self, w: &mut Walker) {
-        if w.collection("String", self.name.len(), 1) {
+        if w.string("String", self.name.as_bytes()) {
             w.elements_touched += self.name.chars().count() as u64;
         }
         if w.collection("Vec<u32>", self.points.len(), 4) {
